@@ -45,6 +45,7 @@ def run(c):
     r4(c)
     r5(c)
     r6(c)
+    r7(c)
 
 
 def r1(c, ops):
@@ -412,3 +413,61 @@ def r6(c):
                        key_text="deletes")
         else:
             c.holds("C03.R6", repo.loc(m, fn), f"{name}/no-deletion")
+
+
+def r7(c):
+    """the known deletion in rewrite_diff (C03.R6) is harmless only while its 'nothing changed anywhere' test looks at the whole sub-tree"""
+    repo = c.repo
+    c.rule("C03.R7", "rewrite_diff: the test that decides to clear the diff of a %rewrite block (and the loop relabelling AFFECTED to MOVED) quantify over every entry of the "
+                     "sub-tree — the iterable is produced by a walker that descends into .children — and the test compares each visited entry's op with Op.AFFECTED; "
+                     "a test over the first level only treats a change below an unchanged row as 'no change' and drops it from the diff")
+    m = repo.module(COMMON)
+    fn = repo.func(COMMON, "rewrite_diff", canon=False)
+    c.count("functions")
+    gm = GuardMap(fn)
+    pv = Provenance(fn)
+    base = [x for x in calls_in(fn) if call_name(x) == "base_diff"]
+    clears = [n for n in walk_no_nested(fn) if isinstance(n, ast.Call) and isinstance(n.func, ast.Attribute) and n.func.attr == "clear"
+              and base and any(x is base[0] for x in pv.origin_calls(n.func.value, through_calls=False))]
+    if not clears:
+        c.holds("C03.R7", repo.loc(m, fn), "rewrite_diff/clear-test", "the diff is never cleared", trivial=True)
+        return
+    nested = {n.name: n for n in ast.walk(fn) if isinstance(n, ast.FunctionDef) and n is not fn}
+
+    def walker_of(it):
+        """-> (function def or None, shallow?)"""
+        if isinstance(it, ast.Call):
+            nm = call_name(it)
+            f = nested.get(nm) or (m.defs.get(nm) if isinstance(m.defs.get(nm), ast.FunctionDef) else None)
+            if f is not None:
+                deep = any(isinstance(x, ast.Attribute) and x.attr == "children" for x in ast.walk(f)) and \
+                    (any(isinstance(x, ast.Call) and call_name(x) == f.name for x in ast.walk(f)) or any(isinstance(x, ast.While) for x in ast.walk(f)))
+                return f, not deep
+            if nm in ("enumerate", "iter", "list", "reversed") and it.args:
+                return walker_of(it.args[0])
+        if any(x is base[0] for x in pv.origin_calls(it, through_calls=False)):
+            return None, True
+        return None, None
+    for cl in clears:
+        tests = [t for t, pol in gm.of(cl)]
+        quant = []
+        for t in tests:
+            for x in ast.walk(t):
+                if isinstance(x, ast.Call) and call_name(x) in ("all", "any") and x.args and isinstance(x.args[0], (ast.GeneratorExp, ast.ListComp)):
+                    quant.append(x)
+        if not quant:
+            raise AnchorError("rewrite_diff: the test guarding diff.clear() is not an all()/any() over the diff")
+        q = quant[0]
+        g = q.args[0].generators[0]
+        f, shallow = walker_of(g.iter)
+        if shallow is None:
+            raise AnchorError(f"rewrite_diff: iterable `{norm(g.iter)[:50]}` of the clear test not recognised")
+        mentions_affected = any(op_const(x) == "AFFECTED" for x in ast.walk(q.args[0].elt)) and any(isinstance(x, ast.Attribute) and x.attr == "op" for x in ast.walk(q.args[0].elt))
+        c.check("C03.R7", (not shallow) and mentions_affected, repo.loc(m, q), "rewrite_diff/clear-test",
+                f"`{norm(q)[:80]}` looks at {'the first level of the diff only' if shallow else 'something other than op == Op.AFFECTED'}: a %rewrite block whose only change lies below an unchanged row "
+                "(e.g. a statement inside an if of a route-policy) is cleared from the diff — the change is never patched", key_text="clear-test-depth")
+    loops = [n for n in walk_no_nested(fn) if isinstance(n, ast.For) and any(isinstance(x, ast.Call) and isinstance(x.func, ast.Attribute) and x.func.attr == "_replace" for x in ast.walk(n))]
+    for lp in loops:
+        f, shallow = walker_of(lp.iter)
+        c.check("C03.R7", shallow is False, repo.loc(m, lp), "rewrite_diff/relabel-walk", "the AFFECTED→MOVED relabelling does not walk the whole sub-tree: nested unchanged rows of a rewritten block are not re-created",
+                key_text="relabel-depth")
